@@ -89,6 +89,23 @@ def rules(case, res):
                     S.sig("rule", tuple(sorted(k for k in r)), r.get("caseInsensitive"))
                 S.settle()
             S.stats["rule_path_evaluations"] += nget * len(paths)
+            if mode == "pairs":
+                # the set the rules select from changes: paths that are proper prefixes of other paths (of the same owner, added in
+                # random order) are removed, one subscriber watching; afterwards rules are evaluated again
+                S.request(q, "fetch", {"id": "watch", "path": {"startsWith": ""}})
+                S.settle()
+                live = sorted(S.elements)
+                victims = [p_ for p_ in live if any(o != p_ and o.startswith(p_) for o in live)]
+                rng.shuffle(victims)
+                for p_ in victims[:6]:
+                    S.request(own, "remove", {"path": p_})
+                    S.settle()
+                for r in rules_[:20]:
+                    if len(json.dumps(r)) <= 380:
+                        S.request(q, "get", {"path": r})
+                S.request(q, "get", {})
+                S.settle()
+                S.sig("rules-after-removals", len(victims[:6]))
         else:   # ill-formed rules and repeated option keys
             bad = []
             for m in MATCHERS:
